@@ -438,7 +438,7 @@ Proof.
   intros Hc He HI Hnid. assert (HI0 := HI).
   destruct HI as (Hcl & Hfa & Hmeta & Hini & Hfr & Hsegs & Htail & HS & HT & HL & Hro).
   destruct (recovered_ok _ _ _ _ HT) as (f & Hlk & HTr & Hrc & Hri & Hrn).
-  unfold open_wal. rewrite (cfg_codec_check c Hc), Hini. cbn [negb]. rewrite Hmeta. cbv zeta.
+  unfold open_wal. rewrite (cfg_codec_check c Hc), Hini. cbn [negb]. unfold armed. rewrite He. cbn [andb]. rewrite Hmeta. cbv zeta.
   cbn [persistent ps_segs ps_next_id]. rewrite Hsegs.
   rewrite (open_segs_sealed c e ss [] [t] HS). cbn [open_segs].
   assert (Hcod : si_codec t = c_codec c) by apply HT. assert (Hu : si_sealed t = false) by apply HT.
